@@ -39,7 +39,7 @@ CLAIMS = {
              "without events inside them (rx_covers, env_rxByte, env_rxEnd, C03_step_on_chip: flag semantics, FIFO reads including the clearing of "
              "PayloadReady, flush, configuration registers), and from there the cached build from any coherent state (C03_step_on_chip_cached = C03_step_on_chip + the one-step simulation of C02 + C01). "
              "On the chip model the statement is also given in terms of what the application observes (C03_step_on_chip_obs / C03_observed_callbacks: the callbacks in the observation of the step are exactly what the invocation added to the ghost list - none, or the one receive callback with the payload and its length; a generic lemma, covers_cbs, ties the interpreter's callback log to the ghost's) "
-             "and as a closed set of states: Receiving.byte, Receiving.fin, Receiving.irq - the next byte arrives, the end of the packet is signalled, the host runs the handler: the reception goes on unseen, or exactly this invocation delivers the payload once, or the packet is dropped for its CRC. C03_history_on_chip puts them together over Sys.run: for every admissible history of byte arrivals between operations, the end-of-packet signal and handler invocations (spurious and repeated ones included; frame with good or unchecked CRC), the application sees nothing until one invocation shows exactly one receive callback with exactly the payload and its length. Arrivals INSIDE a running handler are covered by the "
+             "and as a closed set of states: Receiving.byte, Receiving.fin, Receiving.irq - the next byte arrives, the end of the packet is signalled, the host runs the handler: the reception goes on unseen, or exactly this invocation delivers the payload once, or the packet is dropped for its CRC. C03_history_on_chip puts them together over Sys.run: for every admissible history of byte arrivals between operations, the end-of-packet signal and handler invocations (spurious and repeated ones included; frame with good or unchecked CRC), the application sees nothing until one invocation shows exactly one receive callback with exactly the payload and its length; C03_history_on_chip_cached is the same statement for the build with the register cache from any coherent state (each step of the cached system is observably the step of its uncached twin: step_sim of C02). Arrivals INSIDE a running handler are covered by the "
              "environment but tied to the chip model by the scripts only. The environment rxE (Sx/Lemmas/RxFifo.lean) is a 64-byte FIFO into which "
              "the demodulator may push any number of the frame's next bytes before EVERY SPI transfer (hence also between the transfers of a "
              "running handler) as long as the FIFO does not fill up (the property's hypothesis), PayloadReady raised at any moment after the "
@@ -83,7 +83,9 @@ CLAIMS = {
              "(any other flags), for every RxNbBytes 0..255 that fits the packet buffer (any CONFIG_SX127X_MAX_PACKET_SIZE; C05_rx_too_long: a longer packet is neither read nor delivered and leaves the handle exactly as it was), every FifoRxCurrentAddr (wrap-around at 256 proved by induction on the burst), "
              "every buffer content, FIFO pointer and other handle fields, one handler invocation invokes exactly one callback, the receive "
              "callback with exactly the chip's bytes and length, acknowledges exactly the flags read and resets the per-packet state "
-             "(so the outcome does not depend on the packets before); a packet with PayloadCrcError yields no callback. CadDone, which the chip "
+             "(so the outcome does not depend on the packets before); a packet with PayloadCrcError yields no callback. C05_sequence makes the last clause explicit over Sys.run: "
+             "in the cached build, from an idle LoRa receiver, for EVERY sequence of packets (any lengths up to 255, any buffer positions, any contents, with and without CRC error, in any order), each followed by one "
+             "handler invocation, every invocation shows exactly the callbacks of its own packet (LoraIdle is re-established after each packet; loraRx_chip describes the chip after the arrival). CadDone, which the chip "
              "raises in CAD mode only, takes precedence in the handler (C07_cad_done, any other flags); such flag bytes are additionally covered by the trace correspondence.",
         technique="Lean 4 weakest-precondition proof of the LoRa handler (both header modes) + induction on the FIFO burst + scheduler scripts",
         design="7 C05"),
